@@ -749,6 +749,8 @@ impl Engine {
             .current_dir(&fuzz_dir)
             .env("RUSTFLAGS", "--cfg gothenburgbitfactory_taskchampion_verif")
             .env("CARGO_NET_OFFLINE", "true")
+            // the toolchain manager needs the real home directory, not the scratch one
+            .env("HOME", std::env::var("VERIF_REAL_HOME").unwrap_or_else(|_| std::env::var("HOME").unwrap_or_default()))
             .args(["+nightly", "fuzz", "run", target])
             .arg(&work)
             .arg(fuzz_dir.join("corpus").join(target))
